@@ -755,3 +755,72 @@ package moss
 //@   requires s != nil
 //@   ensures @prev r1 == nil && r0 != nil ==> typeIs(ss, "*Footer") && len(ptrOf(ss, "*Footer").SegmentLocs) > 0 &&
 //@       r0 == ifaceOf(scanAt(ptrOf(ss, "*Footer").SegmentLocs[0].mref.fref, ptrOf(ss, "*Footer").PrevFooterOffset))
+
+// ---- single-segment iterator (C09) -------------------------------------------------------------------
+
+//@ func SegmentCursor.Next
+//@   attr delegate *segmentCursor
+//@ func SegmentCursor.Current
+//@   attr delegate *segmentCursor
+//@ func SegmentCursor.Seek
+//@   attr delegate *segmentCursor
+
+//@ pure func itCur(it *iteratorSingle) *segmentCursor = ptrOf(it.sc, "*segmentCursor")
+// Position q is enumerated: not a deletion, unless deletions were asked for.
+//@ pure func liveAt(it *iteratorSingle, q int) bool = it.iteratorOptions.IncludeDeletions || kop(itCur(it).s, q) != OperationDel
+// The iterator mirrors the entry under its cursor; op == 0 means exhausted.
+//@ pure func itOK(it *iteratorSingle) bool = it != nil && typeIs(it.sc, "*segmentCursor") && itCur(it) != nil && cursorOK(itCur(it)) &&
+//@     (it.op != 0 ==> itCur(it).curr < itCur(it).end && it.op == kop(itCur(it).s, itCur(it).curr) &&
+//@         it.k == keyAt(itCur(it).s, itCur(it).curr) && it.v == valAt(itCur(it).s, itCur(it).curr) && liveAt(it, itCur(it).curr) &&
+//@         rank(it.k) == keyRank(itCur(it).s, itCur(it).curr)) &&
+//@     (it.op == 0 ==> itCur(it).curr >= itCur(it).end)
+
+// Like itOK, but the entry under the cursor may be a deletion that is about to be skipped.
+//@ pure func itPosOK(it *iteratorSingle) bool = it != nil && typeIs(it.sc, "*segmentCursor") && itCur(it) != nil && cursorOK(itCur(it)) &&
+//@     (it.op != 0 ==> itCur(it).curr < itCur(it).end) && (it.op == 0 ==> itCur(it).curr >= itCur(it).end)
+
+//@ func (iter *iteratorSingle) Next() error
+//@   props C09
+//@   requires itPosOK(iter)
+//@   decreases itCur(iter).end - itCur(iter).curr + 1
+//@   modifies iter.op, iter.k, iter.v, itCur(iter).curr
+//@   ensures @ok itOK(iter)
+//@   ensures @advance result == nil ==> iter.op != 0 && itCur(iter).curr > old(itCur(iter).curr) &&
+//@       (forall q int :: old(itCur(iter).curr) < q && q < itCur(iter).curr ==> !liveAt(iter, q))
+//@   ensures @done result != nil ==> result == ErrIteratorDone && iter.op == 0 &&
+//@       (forall q int :: old(itCur(iter).curr) < q && q < itCur(iter).end ==> !liveAt(iter, q))
+
+//@ func (iter *iteratorSingle) CurrentEx() (entryEx EntryEx, key, val []byte, err error)
+//@   props C09
+//@   requires itOK(iter)
+//@   ensures @done iter.op == 0 ==> err == ErrIteratorDone && key == nil && val == nil
+//@   ensures @entry iter.op != 0 ==> err == nil && entryEx.Operation == kop(itCur(iter).s, itCur(iter).curr) &&
+//@       key == keyAt(itCur(iter).s, itCur(iter).curr) && val == valAt(itCur(iter).s, itCur(iter).curr)
+
+//@ func (iter *iteratorSingle) Current() ([]byte, []byte, error)
+//@   props C09 C08
+//@   requires itOK(iter)
+//@   ensures @done iter.op == 0 ==> r2 == ErrIteratorDone && r0 == nil && r1 == nil
+//@   ensures @set iter.op != 0 && iter.op != OperationDel && iter.op != OperationMerge ==> r2 == nil &&
+//@       r0 == keyAt(itCur(iter).s, itCur(iter).curr) && r1 == valAt(itCur(iter).s, itCur(iter).curr)
+//@   ensures @del iter.op == OperationDel ==> r0 == nil && r1 == nil && r2 == nil
+//@   ensures @merge iter.op == OperationMerge && r2 == nil ==> r0 == iter.k &&
+//@       r1 == fullMerge(ite(iter.options != nil, iter.options.MergeOperator, nil), iter.k, nil, iter.v)
+//@   ensures @mergeErr iter.op == OperationMerge ==> r0 == iter.k && (r2 == nil || r2 == ErrMergeOperatorNil || r2 == ErrMergeOperatorFullMergeFailed)
+
+//@ func naiveSeekTo$loops
+//@   loop 1: modifies ptrOf(iter, "*iteratorSingle").op, ptrOf(iter, "*iteratorSingle").k, ptrOf(iter, "*iteratorSingle").v, itCur(ptrOf(iter, "*iteratorSingle")).curr
+//@   loop 1: invariant itOK(ptrOf(iter, "*iteratorSingle"))
+//@   loop 1: invariant forall q int :: itCur(ptrOf(iter, "*iteratorSingle")).start <= q && q < itCur(ptrOf(iter, "*iteratorSingle")).curr ==>
+//@       keyRank(itCur(ptrOf(iter, "*iteratorSingle")).s, q) < rank(seekToKey) || !liveAt(ptrOf(iter, "*iteratorSingle"), q)
+
+// SeekTo(x): smallest enumerated in-range position whose key is >= x (and >= the start of the range).
+//@ func (iter *iteratorSingle) SeekTo(seekToKey []byte) error
+//@   props C09
+//@   requires itOK(iter)
+//@   modifies iter.op, iter.k, iter.v, itCur(iter).curr
+//@   ensures @ok itOK(iter)
+//@   ensures @found result == nil ==> iter.op != 0 && keyRank(itCur(iter).s, itCur(iter).curr) >= rank(seekToKey) &&
+//@       (forall q int :: itCur(iter).start <= q && q < itCur(iter).curr && keyRank(itCur(iter).s, q) >= rank(seekToKey) ==> !liveAt(iter, q))
+//@   ensures @none result == ErrIteratorDone ==> iter.op == 0 &&
+//@       (forall q int :: itCur(iter).start <= q && q < itCur(iter).end && keyRank(itCur(iter).s, q) >= rank(seekToKey) ==> !liveAt(iter, q))
